@@ -63,7 +63,11 @@ DELTAP = z3.Real('deltap')
 
 
 def tasks(tier):
-    return ['symbols', 'set_kernel', 'closure', 'canary']
+    # "in the documented order, over the same neighbours" is C03's contract:
+    # its obligations are re-checked here (dep.*) so that a change to the
+    # shared code generation that breaks this property fails this check too
+    return ['symbols', 'set_kernel', 'closure', 'canary', 'dep:skeleton',
+            'dep:range', 'dep:determinism', 'dep:bounded']
 
 
 def blocks(repo):
@@ -240,6 +244,15 @@ def replay_symbols(model, ob):
 
 def run_task(task, ctx):
     repo = Repo()
+    if task.startswith('dep:'):
+        from contracts import C03
+        n0, b0 = len(ctx.results), len(ctx.bounded)
+        C03.run_task(task.split(':')[1], ctx)
+        for r in ctx.results[n0:]:
+            r['name'] = 'dep.c03.' + r['name']
+        for b in ctx.bounded[b0:]:
+            b['name'] = 'dep.' + b['name']
+        return
     if task == 'symbols':
         return task_symbols(ctx, repo)
     if task == 'set_kernel':
